@@ -77,6 +77,15 @@ def run_c09(pid, tier, seed, replay=None):
             return ck.finish()
         rows = vlib.read_ndjson(log)
         _judge(ck, log, rows, "fit")
+        # one problem whose flattened normal-equation array has positions beyond 2^32 (66820 coefficients)
+        llog = os.path.join(wd, "large.ndjson")
+        rc, so, err, _ = vlib.run_driver(exe, ["large", llog], timeout=1500, env={"OMP_NUM_THREADS": "1", "OPENBLAS_NUM_THREADS": "1"})
+        lrows = vlib.read_ndjson(llog) if os.path.exists(llog) else []
+        if rc != 0 or not lrows:
+            ck.violation({"class": "crash", "mode": "large"}, {"what": "fit driver died on the 66820-coefficient problem", "rc": rc, "stderr": err[-2000:]})
+        elif not lrows[0]["completed"] or lrows[0]["bad"]:
+            ck.violation({"class": "large-problem-not-reproduced"}, {"what": "a consistent unpenalised 260 x 257 problem does not give back its generating coefficients", "row": lrows[0]})
+        ck.cov["large_problem"] = lrows[0] if lrows else None
         fits = [r for r in rows if r["kind"] == "fit"]
         ck.cov["skipped_ill_posed"] = sum(1 for r in rows if r["kind"] == "skipped")
         def num(v):      # the driver prints non-finite doubles as the strings "inf" / "nan"
@@ -88,7 +97,7 @@ def run_c09(pid, tier, seed, replay=None):
         ck.cov["evaluations"] = len(fits)
         ck.cov["distinct_nontrivial"] = n - ck.cov["skipped_ill_posed"]
         ck.cov["problems_enumerated_by_tlc"] = total
-        ck.cov["rule"] = "seeded sample of the TLC-enumerated problems (half 1-D, half 2..3-D): axes x penalty orders x smoothing in {0,1,1e3,1e6} x dense/missing/sparse data x unit/varying weights x scalar/per-dimension arguments; each fitted plain, shuffled, with zero-weight extras and through the C API"
+        ck.cov["rule"] = "seeded sample of the TLC-enumerated problems (half 1-D, half 2..3-D): axes x penalty orders x smoothing in {0,1,1e3,1e6} x dense/missing/sparse data x unit/varying weights x scalar/per-dimension arguments; each fitted plain, shuffled, with zero-weight extras and through the C API; plus one consistent 260 x 257 order-1 problem (positions in F beyond 2^32)"
         return ck.finish(exhaustive=False)
     finally:
         if not os.environ.get("VERIF_KEEP"):
